@@ -649,7 +649,7 @@ func TestVerifC02(t *testing.T) {
 
 	nProg, nPkt, maxRules := 300, 30, 12
 	if VThorough() {
-		nProg, nPkt, maxRules = 2500, 50, 40
+		nProg, nPkt, maxRules = 2000, 50, 40
 	}
 	var cur *c02Gen
 	for pi := 0; pi < nProg; pi++ {
